@@ -47,6 +47,4 @@ pub fn round_trip<S: Src>(s: &mut S) {
     check!(s, <BinaryCard as BC64>::DECK[i] == 1u64 << (51 - i as u32), "C14.round_trip.bit_deck_order");
     check!(s, <BinaryCard as BC64>::from_ckc(POKER_DECK.arr()[i]) == <BinaryCard as BC64>::DECK[i], "C14.round_trip.decks_in_step");
     check!(s, <BinaryCard as BC64>::BLANK == 0, "C14.round_trip.blank");
-    check!(s, <BinaryCard as BC64>::ALL == (1u64 << 52) - 1, "C14.round_trip.all_mask");
-    check!(s, <BinaryCard as BC64>::OVERFLOW == !((1u64 << 52) - 1), "C14.round_trip.overflow_mask");
 }
